@@ -1335,10 +1335,13 @@ class Executor(Generic[TContext]):
                     append_awaitable(index)
 
                 index += 1
-        except Exception:
+        except BaseException as error:
+            # also when cancelled: the source has been started and must be closed
             if early_return is not None:  # pragma: no branch
                 with suppress_exceptions:
                     await early_return()
+            if not isinstance(error, Exception):
+                raise
             if awaitable_indices:
                 # Settle any awaitable items already collected in the background,
                 # so that the current error is not delayed.
